@@ -811,10 +811,10 @@ def handle (line : String) : String :=
           let s3 := if ecls == "nil" && !mustFail then
               (let expect := if ea.isSome && l != 0 then none else some dres
                match expect with
-               | some d => if rres == d then "" else "SPEC C05:reader-disagrees-with-detect"
+               | some d => if rres == d then "" else "SPEC C05:reader-disagrees-with-detect ; SPEC C04:same-bytes-different-answer-through-the-reader"
                | none =>
                  -- error offset at or beyond the header: the header is complete, same answer
-                 if rres == dres then "" else "SPEC C05:reader-disagrees-with-detect")
+                 if rres == dres then "" else "SPEC C05:reader-disagrees-with-detect ; SPEC C04:same-bytes-different-answer-through-the-reader")
             else ""
           let s4 := if ecls != "nil" && rres != octet then "SPEC C02:error-result-not-octet-stream" else ""
           let s5 := if ecls != "nil" && ecls != "sentinel" then "SPEC C05:unexpected-error-class" else ""
@@ -1085,6 +1085,10 @@ def handle (line : String) : String :=
         let mime := (unhex res).getD []
         let jsonFamily := hasPrefix mime (ofString "application/json") || hasPrefix mime (ofString "application/geo+json") ||
           hasPrefix mime (ofString "model/gltf+json") || hasPrefix mime (ofString "application/x-ndjson")
+        if _shape.startsWith "flat" then
+          -- a flat document is valid JSON of depth 1: it is reported as JSON (C08), and the detection survived
+          (if mime == ofString "application/json" then "OK" else "SPEC C08:well-formed-document-not-reported-as-json ; SPEC C16:flat-document-misjudged")
+        else
         if d > Gen.Json.maxRecursion + 1 && jsonFamily then "SPEC C16:nesting-beyond-the-cap-reported-as-json" else "OK"
       | _ => "SPEC C16:detection-did-not-survive-the-bomb(" ++ goRes ++ ") ; SPEC C01:detection-crashed-on-deep-nesting"
     | ["extflip", _hx] =>
